@@ -178,6 +178,21 @@ func configure(g *gen) {
 			{Callee: "handlerFuncs[]", Values: []string{"(GoRt.kvhGet handlerFuncs %1).1", "(GoRt.kvhGet handlerFuncs %1).2"}, Ts: []T{{"opaque", "List Nat"}, tBool}},
 			{Callee: "route.Use", Stmts: []string{"ev := ev ++ [GoRt.ResEv.use routeName %1]"}},
 		}})
+	// router.go: the static-file registrations.  The router is the list of `GET(pattern, handler)` calls made on it;
+	// the handler closures and the net/http file servers they close over are opaque (their behaviour is the model's
+	// `Mount`, compared by the `static` engine)
+	for _, n := range []string{"StaticFile", "StaticFunc", "StaticFS", "StaticDir", "StaticFiles"} {
+		add(FnSpec{Recv: "Router", Func: n, Lean: "Router." + n, NoRecv: true, OpaqueClosures: true,
+			Prologue: []string{"let mut ev : List Bytes := []"}, RetExtra: []string{"ev"}, RetExtraT: []string{"List Bytes"},
+			Types: map[string]T{"http.FileSystem": {"opaque", "Unit"}, "http.Handler": {"opaque", "Unit"}, "func(c *rux.Context)": {"opaque", "Unit"},
+				"rux.HandlerFunc": {"opaque", "Unit"}, "http.Dir": {"opaque", "Unit"}},
+			Exts: []Ext{
+				{Callee: "http.StripPrefix", Value: "()", T: T{"opaque", "Unit"}},
+				{Callee: "http.FileServer", Value: "()", T: T{"opaque", "Unit"}},
+				{Callee: "http.Dir", Value: "()", T: T{"opaque", "Unit"}},
+				{Callee: "$.GET", Stmts: []string{"ev := ev ++ [%1]"}},
+			}})
+	}
 	// route.go: the constructors and the naming API.  The router's name index is an association list (first binding
 	// = the live one)
 	add(FnSpec{Func: "NewRoute", Lean: "NewRoute", UseStructs: []string{"Route"}, Types: map[string]T{"rux.HandlerFunc": {"opaque", "Option Nat"}}})
